@@ -16,8 +16,8 @@ RULE = ('Histories of 1..14 ops (register / update by mutation or by a fresh Ser
         'sets, custom TTLs incl. odd values) on one real instance in the simulator. Queries have 1..4 class-IN questions '
         '(PTR/A/AAAA/SRV/TXT/ANY/NSEC/unknown over registered names as spelled, re-cased, unregistered, and the enumeration name) '
         'and a known-answer list drawn from the model\'s expected answers with TTL just below/at/above half, full and zero, plus '
-        'unrelated records. Replies are read from the wire (unicast reply to a legacy-port query, or the multicast replies to a QM '
-        'query) with the independent decoder and compared with ResponderModel: answer identity set and TTLs equal, additionals '
+        'unrelated records. Replies are read from the wire (unicast reply to a legacy-port query, the multicast replies to a QM '
+        'query, or the unicast plus multicast replies to a port-5353 query whose questions carry the QU bit in any combination) with the independent decoder and compared with ResponderModel: answer identity set and TTLs equal, additionals '
         'within the producing services\' own records and disjoint from the answers of the same message. Non-trivial = query asked '
         'after >= 1 update/unregister with >= 1 expected answer and >= 1 suppressed-or-boundary known answer, or on a shared host.')
 ASSUMPTIONS = [
@@ -56,7 +56,8 @@ query_st = st.fixed_dictionaries({
     'qs': st.lists(q_st, min_size=1, max_size=4),
     'ka': st.lists(ka_st, max_size=4, unique_by=lambda x: x[0]),
     'unrelated': st.integers(0, 2),
-    'via': st.sampled_from(['legacy', 'legacy', 'legacy', 'qm']),
+    'via': st.sampled_from(['legacy', 'legacy', 'legacy', 'qm', 'qu', 'qu']),
+    'qu': st.lists(st.booleans(), min_size=4, max_size=4),      # per question, used when via == 'qu' (port 5353)
 })
 op_st = st.one_of(
     st.integers(0, 5).map(lambda k: ['reg', k]),
@@ -103,7 +104,7 @@ class Exec:
         self.infos: Dict[int, Any] = {}       # pool index -> live ServiceInfo
         self.descs: Dict[int, Dict[str, Any]] = {}
         self.stats = {'queries': 0, 'expected_answers': 0, 'suppressed_or_boundary': 0, 'after_change': 0,
-                      'shared_host_query': 0, 'qm_queries': 0, 'dont_care': 0, 'nsec_expected': 0, 'enum_queries': 0}
+                      'shared_host_query': 0, 'qm_queries': 0, 'qu_queries': 0, 'mixed_qu_qm_queries': 0, 'dont_care': 0, 'nsec_expected': 0, 'enum_queries': 0}
         self.changed = False
         self.nontrivial = False
         self.port = 40000
@@ -239,16 +240,21 @@ class Exec:
         if (self.changed and exp and boundary) or (shared and exp):
             self.nontrivial = True
         self.port += 1
-        data = rp.build_query([(n, t, False) for n, t in questions], ka_rrs, qid=self.port & 0xFFFF)
+        qu_bits = [bool(via == 'qu' and q.get('qu', [False] * 4)[i]) for i in range(len(questions))]
+        data = rp.build_query([(n, t, u) for (n, t), u in zip(questions, qu_bits)], ka_rrs, qid=self.port & 0xFFFF)
         det = {'questions': questions, 'known': [(list(i), t) for i, t in known], 'via': via,
                'registry': sorted(self.model.services)}
-        if via == 'qm':
-            st_['qm_queries'] += 1
+        if via in ('qm', 'qu'):
+            st_['qm_queries' if via == 'qm' else 'qu_queries'] += 1
+            if via == 'qu' and any(qu_bits) and not all(qu_bits):
+                st_['mixed_qu_qm_queries'] += 1
             await asyncio.sleep(1.7)   # drain multicast answers still queued for earlier queries
             n0 = len(w.net.trace)
             w.net.inject(self.host, data, (CLIENT_IP, 5353))
             await asyncio.sleep(1.7)
-            msgs = [e for e in w.net.trace[n0:] if e['dst'] == sim.MDNS4]
+            # a question with the QU bit is answered by unicast to the querier (and by multicast as well when the record was
+            # not multicast recently); which way each answer travels is C11's subject - here the union must be right
+            msgs = [e for e in w.net.trace[n0:] if e['dst'] == sim.MDNS4 or (e['dst'] == CLIENT_IP and e['port'] == 5353)]
         else:
             n0 = len(w.net.trace)
             w.net.inject(self.host, data, (CLIENT_IP, self.port))
